@@ -254,7 +254,7 @@ func (e *runEnv) attempt(j job, base, trace string, timeout time.Duration) (*Rep
 	cmd.Stdout, cmd.Stderr = logf, logf
 	env := os.Environ()
 	if j.unit.Race {
-		env = append(env, "GORACE=halt_on_error=0 log_path="+base+".race")
+		env = append(env, "GORACE=halt_on_error=0 exitcode=0 log_path="+base+".race")
 	}
 	cmd.Env = env
 	runErr := cmd.Run()
